@@ -9,6 +9,21 @@ import (
 )
 
 func init() {
+	// getmode: {args: [...]} -> stgutg.GetMode called with exactly this vector as os.Args (the whole vector, program name
+	// included; it may be empty: execve allows an empty argv on some kernels, and GetMode is an exported function)
+	lineCmds["getmode"] = func(in map[string]interface{}) map[string]interface{} {
+		args := []string{}
+		if l, ok := in["args"].([]interface{}); ok {
+			for _, x := range l {
+				s, _ := x.(string)
+				args = append(args, s)
+			}
+		}
+		saved := os.Args
+		defer func() { os.Args = saved }()
+		os.Args = args
+		return map[string]interface{}{"mode": stgutg.GetMode(args)}
+	}
 	// conf: {yaml} -> the fields of stgutg.Conf.Configuration after GetConfiguration() read ./config.yaml
 	lineCmds["conf"] = func(in map[string]interface{}) map[string]interface{} {
 		if err := os.WriteFile("config.yaml", []byte(str(in, "yaml")), 0644); err != nil {
